@@ -109,6 +109,8 @@ def reward(case, y):
         return y / 4
     if rk == "nf":                       # a diverged learner: now and then a NaN or +inf reward
         return NAN if y == 9 else (INF if y == -3 else y)
+    if rk == "lit":                      # round h: the y column as written (ints, floats {"f": repr}, bools mixed)
+        return dv(y)
     return y
 
 
@@ -175,10 +177,16 @@ def apply_step(res, st):
         l2 = [(v if islist else v[0]) for v in b] if st.get("multi") else (b[0] if islist else b[0][0])
         if st.get("plot"):
             LAST_PLOT[:] = [run_plot_contrast(res, l1, l2, st)]
-        t = res.raw_contrast(l1, l2, x=st["x"], y="reward", l=st["l"], p=st["p"], span=st.get("span"))
+        kw = dict(x=st["x"], y="reward", l=st["l"], p=st["p"], span=st.get("span"))
+        for k in st.get("omit", ()):        # phase 5: arguments left to their defaults (the step records the documented default values)
+            kw.pop(k, None)
+        t = res.raw_contrast(l1, l2, **kw)
         return None, t
     if op == "raw_learners":
-        t = res.raw_learners(x=st["x"], y=st.get("y", "reward"), l=st["l"], p=st.get("p"), span=st.get("span"))
+        kw = dict(x=st["x"], y=st.get("y", "reward"), l=st["l"], p=st.get("p"), span=st.get("span"))
+        for k in st.get("omit", ()):
+            kw.pop(k, None)
+        t = res.raw_learners(**kw)
         return None, t
     raise RuntimeError("bad op " + op)
 
@@ -488,9 +496,14 @@ class Direct:
             evs = OrderedDict((t, rows[:n]) for t, rows in evs.items() if len(rows) >= n)
         return evs
 
+    naive_int_first = False     # only for classifying a mismatch (round h): an int-first window summed left to right in floats
+
     def window_mean(self, ys, span, i, sticky=False):
         lo = 0 if (span is None) else max(0, i + 1 - span)
-        return nf_mean(ys[lo:i + 1], ys[:lo] if sticky else ())
+        w = ys[lo:i + 1]
+        if self.naive_int_first and w and type(w[0]) is int and not any(nonfinite(y) for y in w):
+            return float(sum(w) / len(w))
+        return nf_mean(w, ys[:lo] if sticky else ())
 
     def has_nonfinite(self):
         return any(nonfinite(r[self.iy]) for r in self.irows)
@@ -891,11 +904,89 @@ class C18(Property):
     MODEL_TABLES = {"modes": ["diff", "prob"], "boundary": [(0, 1), (1, 2)], "errs": ["se", "bs", "bi", "sd"], "xspecial": ["index"],
                     "diff_idx": (1, 0), "prob_op": "Gt", "prob_thr": (0, 1), "split_ops": ["Lt", "LtE", "LtE", "Lt"], "every": (1, 20), "skip_off": 1}
 
+    # phase 5: defaults of the analysis functions and the `_confidence` dispatch (err string -> interval class), as the model / the harness assume them
+    DEFAULT_FUNCS = ["filter_best", "filter_fin", "where_best", "where_fin", "raw_learners", "raw_contrast", "plot_learners", "plot_contrast"]
+    DEFAULT_PARAMS = ["n", "l", "p", "x", "y", "span", "full_l", "full_p", "mode", "err", "errevery"]
+    MODEL_DEFAULTS = [
+        ("filter_best", "y", "'reward'"), ("filter_best", "n", "None"), ("filter_best", "full_l", "'learner_id'"), ("filter_best", "full_p", "'environment_id'"),
+        ("filter_fin", "n", "None"), ("filter_fin", "l", "None"), ("filter_fin", "p", "None"),
+        ("where_best", "p", "None"), ("where_best", "y", "'reward'"), ("where_best", "n", "None"), ("where_best", "full_l", "'learner_id'"), ("where_best", "full_p", "'environment_id'"),
+        ("where_fin", "n", "None"), ("where_fin", "l", "None"), ("where_fin", "p", "None"),
+        ("raw_learners", "x", "'index'"), ("raw_learners", "y", "'reward'"), ("raw_learners", "l", "'full_name'"), ("raw_learners", "p", "'environment_id'"), ("raw_learners", "span", "None"),
+        ("raw_contrast", "x", "'environment_id'"), ("raw_contrast", "y", "'reward'"), ("raw_contrast", "l", "'learner_id'"), ("raw_contrast", "p", "'environment_id'"), ("raw_contrast", "span", "None"),
+        ("plot_learners", "x", "'index'"), ("plot_learners", "y", "'reward'"), ("plot_learners", "l", "'full_name'"), ("plot_learners", "p", "'environment_id'"), ("plot_learners", "span", "None"),
+        ("plot_learners", "err", "None"), ("plot_learners", "errevery", "None"),
+        ("plot_contrast", "x", "'environment_id'"), ("plot_contrast", "y", "'reward'"), ("plot_contrast", "l", "'learner_id'"), ("plot_contrast", "p", "'environment_id'"),
+        ("plot_contrast", "mode", "'diff'"), ("plot_contrast", "span", "None"), ("plot_contrast", "err", "None"), ("plot_contrast", "errevery", "None")]
+    MODEL_CONF = [("se", "StdErrCI"), ("bs", "BootstrapCI"), ("bi", "BinomialCI"), ("sd", "StdDevCI")]
+
+    def gen_defaults(self, src):
+        """Generated/C18Defaults.lean from the CURRENT source: (function, parameter, repr(default)) of the analysis functions and the err -> class dispatch of `_confidence`"""
+        import ast
+        import warnings
+        from core import lean
+        missing = []
+        defaults, conf = list(self.MODEL_DEFAULTS), list(self.MODEL_CONF)
+        try:
+            with warnings.catch_warnings():
+                warnings.simplefilter("ignore")
+                tree = ast.parse(src)
+            res = [n for n in ast.walk(tree) if isinstance(n, ast.ClassDef) and n.name == "Result"][0]
+            fns = {n.name: n for n in res.body if isinstance(n, ast.FunctionDef)}
+        except Exception:  # noqa
+            fns = None
+            missing = ["defaults", "confidence"]
+        if fns is not None:
+            try:
+                out = []
+                for name in self.DEFAULT_FUNCS:
+                    a = fns[name].args
+                    pos = a.posonlyargs + a.args
+                    for arg, dflt in list(zip(pos[len(pos) - len(a.defaults):], a.defaults)) + [(k, d) for k, d in zip(a.kwonlyargs, a.kw_defaults) if d is not None]:
+                        if arg.arg in self.DEFAULT_PARAMS:
+                            out.append((name, arg.arg, repr(ast.literal_eval(dflt))))
+                defaults = out
+            except Exception:  # noqa
+                missing.append("defaults")
+            try:
+                found = []
+                for n in ast.walk(fns["_confidence"]):
+                    if isinstance(n, ast.If) and isinstance(n.test, ast.Compare) and isinstance(n.test.left, ast.Name) and n.test.left.id == "err" \
+                            and len(n.test.ops) == 1 and isinstance(n.test.ops[0], ast.Eq) and isinstance(n.test.comparators[0], ast.Constant) \
+                            and isinstance(n.test.comparators[0].value, str):
+                        call = n.body[0].value
+                        found.append((n.lineno, n.test.comparators[0].value, call.func.id))
+                if not found:
+                    raise ValueError("no dispatch")
+                conf = [(e, c) for _, e, c in sorted(found)]
+            except Exception:  # noqa
+                missing.append("confidence")
+
+        def lstr(x):
+            return '"' + x.replace("\\", "\\\\").replace('"', '\\"') + '"'
+        body = ("-- GENERATED by harness/props/c18.py from coba/results/core.py (defaults of the analysis functions, `_confidence` dispatch) on every run; do not edit.\n"
+                "-- A table that could not be extracted (source reshaped) carries the model's own value and is listed in `defaultsNotExtracted`.\n"
+                "namespace Coba.Generated.C18\n"
+                "def analysisDefaults : List (String × String × String) := [%s]\n"
+                "def confDispatch : List (String × String) := [%s]\n"
+                "def defaultsNotExtracted : List String := [%s]\n"
+                "end Coba.Generated.C18\n"
+                % (", ".join("(%s, %s, %s)" % (lstr(a), lstr(b), lstr(c)) for a, b, c in defaults), ", ".join("(%s, %s)" % (lstr(a), lstr(b)) for a, b in conf),
+                   ", ".join(lstr(m) for m in missing)))
+        path = os.path.join(lean.LEAN_DIR, "CobaVerif", "Generated", "C18Defaults.lean")
+        old = open(path, encoding="utf-8").read() if os.path.exists(path) else None
+        if old != body:
+            os.makedirs(os.path.dirname(path), exist_ok=True)
+            with open(path, "w", encoding="utf-8") as f:
+                f.write(body)
+        return ["C18Defaults: %d defaults, %d dispatch entries from coba/results/core.py%s" % (len(defaults), len(conf), (" (not extracted: %s)" % missing) if missing else "")]
+
     def pre_build(self):
         import ast
         from core import lean
         src = open(os.path.join(os.environ.get("COBA_REPO", "/repo"), "coba", "results", "core.py"), encoding="utf-8").read()
         got, notes = {}, []
+        notes += self.gen_defaults(src)
 
         def fn(cls, name):
             for n in ast.walk(cls):
@@ -1454,6 +1545,65 @@ class C18(Property):
             cs.append(dict(ib, style="result", final=fin, sched=[{"ins": [0, 1, 2, 3, 4]}, {"look": look}, {"ins": [5]}]))
             cs.append(dict(ib, style="result", as_dict=False, final=fin, sched=[{"ins": [0, 1]}, {"look": look}, {"ins": [2, 3]}, {"look": look}, {"ins": [4, 5]}]))
         cs.append(dict(ib, style="table", final=fin, sched=[{"ins": [4, 5]}, {"look": "table_where"}, {"ins": [0, 1]}, {"look": "table_groupby"}, {"ins": [2, 3]}]))   # out of order
+        # round h (mutant C18-hm2): y columns mixing ints and floats (int first / int last / float first / all ints / bools) with values on which a
+        # left-to-right float sum differs from the exactly rounded mean (cancellation 1e16 / 1e17 pairs, 2**53+2, 0.1 ten times, 2-decimal rewards);
+        # final averages (x = parameter columns / ids) are compared EXACTLY with the mean over Q rounded once.  Only vectors on which rounding the exact
+        # sum first and dividing then gives the same binary64 (no double-rounding effect) are used — checked here with exact arithmetic.
+        def fj(v):
+            return {"f": repr(v)} if isinstance(v, float) else v
+
+        def once_ok(Y):
+            for sp in (len(Y), 2, 3):
+                w = [Fraction(v) for v in Y[-sp:]]
+                if float(sum(w)) / len(w) != float(sum(w) / len(w)):
+                    return False
+            return True
+        vecs = [[1, 1e16, 1.0, -1e16], [1.0, 1e16, 1, -1e16], [1e16, 1.0, -1e16, 1], [2**53, 1.0, 1.0, 0.0], [1.0, 1.0, 0.0, 2**53], [0.0, 2**53, 1.0, 1.0],
+                [3, -1e17, 7.0, 1e17], [1, 0.5, 0.25, 0.25], [1] + [0.1] * 10, [0.1] * 10 + [1], [0.1] * 10, [0] + [0.1] * 10, [2**53, 1, 1, 0], [1, 10**16, 1, -10**16],
+                [True, 0.1, 0.2, 0.7], [True, False, True, True], [1, True, 0.3, 0.3], [2, 1e-3, 1e16, -1e16, 5.0], [1, 1e100, 1.0, -1e100], [0, 1e16, 3.0, -1e16]]
+        for a in range(12):
+            vecs.append([a % 3] + [((7 * a * a + 13 * i * i + 3 * i + a) % 100) / 100 for i in range(1, 4 + a % 4)])
+            vecs.append([((11 * a * a + 5 * i * i + i + a) % 100) / 100 for i in range(1, 4 + a % 3)] + [1])
+        vecs = [v for v in vecs if once_ok(v)]
+        for i in range(0, len(vecs) - 3, 2):
+            ys4 = vecs[i:i + 4]
+            mb = dict(base, vals=[[0]], rk="lit", envs=[[0, 10], [1, 20]],
+                      evals=[[e, l, 0, [fj(v) for v in ys4[2 * e + l]]] for e in (0, 1) for l in (0, 1)])
+            cs.append(dict(mb, steps=[dict({"op": "raw_learners", "x": xx, "l": ll, "p": "environment_id", "span": sp}, fresh=True)
+                                      for xx, ll, sp in (("data", "learner_id", None), ("data", "family", 3), ("environment_id", "learner_id", 2),
+                                                         (["data"], "learner_id", None), ("data", "learner_id", 1))]))
+        # phase 5: calls that leave arguments to their defaults (pairing by environments, levels = learners, x='index' / 'environment_id', no span) are judged
+        # against the direct computation with the documented defaults (Props.C18.analysis_defaults_match ties the same table to the source)
+        dfb = dict(base, vals=[[0]], lrns=[[1, "f"], [2, "g"]],
+                   evals=[[0, 1, 0, [1, 2, 3]], [0, 2, 0, [3, 1, 0]], [1, 1, 0, [5, 1]], [2, 1, 0, [2, 4]], [2, 2, 0, [1, 1, 4, 2]]])
+        dsteps = [dict({"op": "raw_learners", "x": "index", "l": "full_name", "p": "environment_id", "span": None}, fresh=True, omit=om)
+                  for om in (["x", "y", "l", "p", "span"], ["p"], ["l"], ["x"], ["span", "y"])]
+        dsteps += [dict({"op": "raw_learners", "x": "data", "l": "full_name", "p": "environment_id", "span": 2}, fresh=True, omit=["l", "p"])]
+        dsteps += [dict({"op": "raw_contrast", "l": "learner_id", "l1": 1, "l2": 2, "x": "environment_id", "p": "environment_id", "span": None}, fresh=True, omit=om)
+                   for om in (["x", "y", "l", "p", "span"], ["p"], ["x"], ["l"])]
+        dsteps += [{"op": "where_best", "l": "family", "p": "environment_id", "n": None, "fresh": True}, {"op": "where_best", "l": "family", "p": "data", "n": 2, "fresh": True}]
+        cs.append(dict(dfb, steps=dsteps))
+        cs.append(dict(dfb, envs=[[0, "a"], [1, "b"], [2, "b"]], vals=[[0], [1]], evals=dfb["evals"] + [[1, 2, 1, [7, 7]], [0, 1, 1, [2]]], steps=dsteps[:10]))
+        # phase 5, goal 2: int(n*0.05) vs n/20 — small n, every residue, n = 20k+19 over all magnitudes, both sides of 3*2^51, up to 2^53-1
+        B05 = 3 * 2**51
+        cs.append({"kind": "law05", "ns": list(range(0, 130))})
+        cs.append({"kind": "law05", "ns": sorted(set(v for e in range(5, 53) for v in (2**e - 1, 2**e, 20 * (2**e // 20) + 19, 20 * (3 * 2**e // 40) + 19, 20 * (5 * 2**e // 80) + 19) if 0 <= v < 2**53))})
+        cs.append({"kind": "law05", "ns": list(range(B05 - 45, B05 + 45))})
+        cs.append({"kind": "law05", "ns": [B05 - 20 * j - 5 for j in range(1, 60)] + [B05 + 20 * j + 15 for j in range(0, 60)] + [5 * 2**50 + d for d in range(-25, 25)] + [2**53 - 1 - d for d in range(0, 45)]})
+        cs.append({"kind": "law05", "ns": [20 * ((B05 * j) // (20 * 97)) + 19 for j in range(1, 97)] + [20 * ((B05 + (2**53 - B05) * j // 61) // 20) + r for j in range(0, 61) for r in (18, 19, 0)]})
+        # phase 5: x columns of one / mixed Python classes through raw_contrast's final sorted() (now inside the model: `rawContrastPy`):
+        # ascending, strictly descending (run reversed), binary insertion, a string / None among numbers at every position, bool/float/int mixes
+        for xs_ in ([3, 1, 2], [1, 2, 3], [3, 2, 1], [2, 3, 1, 0], [2, "a", 1], ["a", 2, 1], [1, 2, "a"], [1, 2, 3, "a"], ["b", "a", "c"], ["b", "a", 1],
+                    [None, 1, 2], [1, None, 2], [1, 2, None], [None, None], [True, 2, {"f": "0.5"}], [{"f": "1.5"}, "x", 0], [5, 4, 3, 2, 1, "z"], [1, 5, 2, 4, 3],
+                    [2, 1, 4, 3, 6, 5, "q"], [7, 3, 5, 1, 6, 2, 4]):
+            mx = dict(base, vals=[[0]], envs=[[i, v] for i, v in enumerate(xs_)],
+                      evals=[[e, l, 0, [(3 * e + 2 * l + i) % 5 for i in range(1, 4)]] for e in range(len(xs_)) for l in (0, 1)])
+            cs.append(dict(mx, steps=[
+                {"op": "raw_contrast", "l": "learner_id", "l1": 0, "l2": 1, "x": "data", "p": "environment_id", "span": None, "fresh": True},
+                {"op": "raw_contrast", "l": "learner_id", "l1": 0, "l2": 1, "x": "data", "p": "environment_id", "span": 2, "fresh": True,
+                 "plot": {"mode": "diff", "err": None, "errevery": None, "boundary": True}},
+                {"op": "raw_contrast", "l": "family", "l1": "f", "l2": "g", "x": "data", "p": "environment_id", "span": None, "fresh": True,
+                 "plot": {"mode": "prob", "err": "range", "errevery": 2, "boundary": False}}]))
         return cs
 
     def exhaustive(self, tier):
@@ -1477,11 +1627,32 @@ class C18(Property):
                    "lrns": [[0], [1]], "vals": [[0], [1]], "evals": evals, "extra": False, "steps": steps}
 
     # ---------------------------------------------------------------- evaluation
+    # ---- phase 5, goal 2: `int(n*0.05)` (plot_contrast / plot_learners: default errevery) on binary64 vs. the model's `n / 20`
+    def eval_law05(self, case, driver):
+        """Props.C18.int_mul_005_eq_div20: equal for every n < 3*2^51; above (n < 2^53) they differ exactly for n % 20 == 19 (by +1)."""
+        fails, tags = [], []
+        ns = case["ns"]
+        bound = 3 * 2**51
+        model = [max(n // 20, 1) for n in ns]
+        if driver is not None:
+            ans = ask(driver, {"kind": "errevery", "ns": ns})
+            model, bound = ans["model"], ans["bound"]
+        impl = [max(int(n * 0.05), 1) for n in ns]          # the expression of coba/results/core.py (factor tied by plot_errevery_match)
+        for n, a, m in zip(ns, impl, model):
+            exp_diff = n >= bound and n % 20 == 19
+            tags.append("law05:" + ("below-bound" if n < bound else ("above-bound:differs" if exp_diff else "above-bound:equal")) + (":r=19" if n % 20 == 19 else ""))
+            if (a != m) != exp_diff or (exp_diff and a != m + 1):
+                fails.append(F("A", "max(int(%d*0.05),1) = %d on binary64, the model's max(%d/20,1) = %d; the theorem int_mul_005_eq_div20 (n < 3*2^51) / the exact set "
+                               "{n >= 3*2^51, n %% 20 == 19} says they %s" % (n, a, n, m, "differ by 1" if exp_diff else "agree"), "A:int-n-0.05-vs-div20"))
+        return {"fails": fails, "nontrivial": len(ns) > 1, "tags": tags, "impl": impl, "model": model}
+
     def evaluate(self, case, driver):
         if case["kind"] == "ma":
             return self.eval_ma(case, driver)
         if case["kind"] == "inc":
             return self.eval_inc(case)
+        if case["kind"] == "law05":
+            return self.eval_law05(case, driver)
         fails, tags = [], []
         recs = run_case(case)
         nontrivial = False
@@ -1955,8 +2126,16 @@ class C18(Property):
                 tags.append("plotc:A-skipped-ambiguous-labels")
                 return
             xord = [inv[v][0] for v in xs]
+        labs = None
+        if x != "index" and not isinstance(x, (list, tuple)) and "ok" in m_raw:
+            # phase 5: no order handed over — the model sorts the labels itself (`plotContrastPy`); the old `xord` path stays for
+            # tuple labels, frozensets (order depends on the insertion order) and >= 64 labels
+            lv = [[x1, x2, pyval(lab_of(x1, x2))] for x1, x2, _ in m_raw["ok"]]
+            if all(e[2] is not None and e[2][0] != "fset" for e in lv) and len(lv) < 64:
+                labs, xord = lv, None
+                tags.append("plotc:A-sorted-in-model")
         ans = ask(driver, dict(req, kind="plotc", mode=pl["mode"], ci=("none" if pl.get("err") is None else "range"), errevery=pl.get("errevery"),
-                               xkind=kind, xord=xord))
+                               xkind=kind, xord=xord, labs=labs))
         m = ans["model"]
         if canonj(m) != canonj(ans["spec"]):
             fails.append(F("C", "model of plot_contrast differs from its spec", "C:plot_contrast"))
@@ -2063,8 +2242,16 @@ class C18(Property):
             else:
                 got = table_to_dict(rec, st, d)
                 mode = "final" if x != "index" else ("progressive" if (span is None) else "windowed")
+                d.naive_int_first = True
+                naive = x != "index" and matches(expected(False))
+                d.naive_int_first = False
                 if set(got) != set(exp):
                     fails.append(F("B", "%s reports the (l,x) pairs %s, a direct computation gives %s" % (call, sorted(map(str, got)), sorted(map(str, exp))), "raw:keys-differ:" + mode))
+                elif naive:
+                    k = [k for k in exp if not (len(got[k]) == len(exp[k]) and all(same_number(a, b) for a, b in zip(got[k], exp[k])))][0]
+                    fails.append(F("B", "%s reports %s for (l,x)=%s; the exact average of the interaction rows, rounded once, is %s — the reported value is what a plain left-to-right float "
+                                   "sum gives for the evaluations whose y column starts with an int (mixed int/float y column)" % (call, got[k], k, [repr(float(v)) for v in exp[k]]),
+                                   "raw:final-average-int-first-sample-summed-naively"))
                 else:
                     k = [k for k in exp if not (len(got[k]) == len(exp[k]) and all(same_number(a, b) for a, b in zip(got[k], exp[k])))][0]
                     fails.append(F("B", "%s reports %s for (l,x)=%s, a direct computation from the interaction rows gives %s" % (call, got[k], k, [str(v) for v in exp[k]]), "raw:values-differ:" + mode))
@@ -2150,6 +2337,24 @@ class C18(Property):
                     if mixedx:
                         return None
                 else:
+                    # phase 5: the sort is part of the model (`rawContrastPy`): only the Python value of each label crosses
+                    mp = ask(driver, dict(req, labs=[[x1, x2, pyval(lab_of(x1, x2))] for x1, x2, _ in m["ok"]]))
+                    mpy = mp["modelpy"]
+                    tags.append("contrast:sorted-in-model:%s%s" % ("TypeError" if "err" in mpy else "ok", ":mixed-column" if mixedx else ""))
+                    if canonj(mpy) != canonj(mp["specpy"]):
+                        fails.append(F("C", "model of raw_contrast (with its sorted()) differs from its spec", "C:raw_contrast-py"))
+                    if "err" in mpy:
+                        if rec.get("err") != mpy["err"]:
+                            fails.append(F("A", "raw_contrast(x=%r) over the x labels %r: implementation %s, the model (sorted() inside) raises %s"
+                                           % (x, labels, rec.get("err") or "returns a table", mpy["err"]), "A:raw_contrast-sorted-in-model"))
+                    elif rec.get("err") == "TypeError":
+                        fails.append(F("A", "raw_contrast(x=%r) raised TypeError; the model (sorted() inside) returns the x labels %r"
+                                       % (x, [lab_of(x1, x2) for x1, x2, _ in mpy["ok"]]), "A:raw_contrast-sorted-in-model"))
+                    elif "table" in rec and not any(e[0] == "fset" for e in enc):
+                        mx = [lab_of(x1, x2) for x1, x2, _ in mpy["ok"]]
+                        if [pyval(v) for v in mx] != [pyval(v) for v in rec["table"][1][0]]:
+                            fails.append(F("A", "raw_contrast(x=%r): x labels come out as %r, the model (sorted() inside) gives %r"
+                                           % (x, list(rec["table"][1][0]), mx), "A:raw_contrast-sorted-in-model-order"))
                     ps = ask(driver, {"kind": "pysort", "vals": enc})["model"]
                     tags.append("pysort:%s%s" % ("TypeError" if "err" in ps else "ok", ":mixed-column" if mixedx else ""))
                     if "err" in ps:
@@ -2344,6 +2549,10 @@ class C18(Property):
 
     # ---------------------------------------------------------------- shrinking / replay
     def shrink(self, case):
+        if case["kind"] == "law05":
+            for n in case["ns"]:
+                yield {"kind": "law05", "ns": [n]}
+            return
         if case["kind"] == "ma":
             vs = case["vs"]
             for k in range(len(vs)):
@@ -2411,6 +2620,8 @@ class C18(Property):
                     yield dict(case, steps=steps[:k] + [dict(st, **{key: st[key][0]})] + steps[k + 1:])
 
     def snippet(self, case):
+        if case["kind"] == "law05":
+            return "for n in %r:\n    print(n, max(int(n*0.05),1), max(n//20,1))\n" % (case["ns"][:20],)
         if case["kind"] == "ma":
             vs = [tofl(p) for p in case["vs"]]
             w = case.get("w")
